@@ -4192,30 +4192,26 @@ class BitmapReachability:
                 return None
 
         # Handle exclusions if provided
-        if exclude_shas and result_pack and combined_bitmap:
+        if exclude_shas and result_pack is not None and combined_bitmap is not None:
             exclude_bitmaps = find_commit_bitmaps(exclude_shas, [result_pack])
 
-            if len(exclude_bitmaps) == len(exclude_shas):
-                # All excludes have bitmaps, compute exclusion
-                exclude_combined = None
+            if len(exclude_bitmaps) < len(exclude_shas):
+                # Without a bitmap for every exclude the exclusion cannot be
+                # computed here; dropping it would give a wrong answer.
+                return None
 
-                for commit_sha in exclude_shas:
-                    _pack, pack_bitmap, _sha_to_pos = exclude_bitmaps[commit_sha]
-                    exclude_bitmap = pack_bitmap.get_bitmap(commit_sha)
+            for commit_sha in exclude_shas:
+                _pack, pack_bitmap, _sha_to_pos = exclude_bitmaps[commit_sha]
+                exclude_bitmap = pack_bitmap.get_bitmap(commit_sha)
 
-                    if exclude_bitmap is None:
-                        break
-
-                    if exclude_combined is None:
-                        exclude_combined = exclude_bitmap
-                    else:
-                        exclude_combined = exclude_combined | exclude_bitmap
+                if exclude_bitmap is None:
+                    return None
 
                 # Subtract excludes using set difference
-                if exclude_combined:
-                    combined_bitmap = combined_bitmap - exclude_combined
+                combined_bitmap = combined_bitmap - exclude_bitmap
 
-        if combined_bitmap and result_pack:
+        # An empty bitmap is a valid answer (everything was excluded)
+        if combined_bitmap is not None and result_pack is not None:
             return (combined_bitmap, result_pack)
         return None
 
